@@ -858,7 +858,7 @@ func init() {
 var bareKeyJustified = map[string]string{
 	"yang.(*Modules).add: m":       "the module table itself (ms.Modules or ms.SubModules): every module is filed under name@revision and the bare name is an alias for the newest revision (REV.ORDER decides the re-pointing)",
 	"yang.FindGrouping: seen":      "visited set of a search over the include graph: a second visit of a same-named submodule would search the same groupings again; skipping it loses nothing",
-	"yang.(*Modules).Process: visited set of the deviation pass": "the module table holds every module under two keys (name and name@revision); the set makes each module's deviations apply once, and the sorted visit makes the bare-name alias — the newest revision — the one that is applied",
+	"visited set of the deviation pass": "the module table holds every module under two keys (name and name@revision); the set makes each module's deviations apply once, and the sorted visit makes the bare-name alias — the newest revision — the one that is applied",
 }
 
 func ruleRevBareKey(c *Ctx) []Obligation {
@@ -944,11 +944,12 @@ func ruleRevBareKey(c *Ctx) []Obligation {
 			if b, isB := mt.Key().Underlying().(*types.Basic); !isB || b.Kind() != types.String {
 				return
 			}
-			bare := derivesThroughCalls(key, func(y ssa.Value) bool { return isBare(y) || isModEntryName(y) })
+			bare := derivesThroughCalls(key, func(y ssa.Value) bool { return isBare(y) || isModEntryName(y) }) ||
+				c.keyMadeFrom(key, func(y ssa.Value) bool { return isBare(y) || isModEntryName(y) }, 0, map[ssa.Value]bool{})
 			if !bare {
 				return
 			}
-			rev := derivesThroughCalls(key, hasRev)
+			rev := derivesThroughCalls(key, hasRev) || c.keyMadeFrom(key, hasRev, 0, map[ssa.Value]bool{})
 			// name the table: a struct field, or a local of the function
 			name := ""
 			if owner, f, _ := loadedField(m); f != nil {
@@ -969,7 +970,7 @@ func ruleRevBareKey(c *Ctx) []Obligation {
 							site := ci.(ssa.Instruction)
 							eachInstr(fn, func(in2 ssa.Instruction) {
 								if l, okl := in2.(*ssa.Lookup); okl && l.X == ssa.Value(mk) && l.Block().Dominates(site.Block()) && lookupAbsentGuards(l, site) {
-									name = c.FnName(rootFn(fn)) + ": visited set of the deviation pass"
+									name = "visited set of the deviation pass"
 								}
 							})
 						}
@@ -1020,6 +1021,80 @@ func ruleRevBareKey(c *Ctx) []Obligation {
 		}
 	}
 	return obs
+}
+
+// keyMadeFrom: the string v is assembled from a value satisfying pred — followed through the results of the repo's own
+// functions (a key handed back by a constructor), formatted printing (the variadic operands), concatenation and phis.
+func (c *Ctx) keyMadeFrom(v ssa.Value, pred func(ssa.Value) bool, depth int, seen map[ssa.Value]bool) bool {
+	if v == nil || seen[v] || depth > 6 {
+		return false
+	}
+	seen[v] = true
+	if derivesFrom(v, pred) {
+		return true
+	}
+	rec := func(x ssa.Value) bool { return c.keyMadeFrom(x, pred, depth+1, seen) }
+	switch x := v.(type) {
+	case *ssa.Extract:
+		if call, isC := x.Tuple.(*ssa.Call); isC {
+			if f := call.Call.StaticCallee(); f != nil && c.isRepoFn(f) && f.Blocks != nil {
+				found := false
+				eachInstr(f, func(in ssa.Instruction) {
+					if r, isR := in.(*ssa.Return); isR && x.Index < len(r.Results) && rec(r.Results[x.Index]) {
+						found = true
+					}
+				})
+				return found
+			}
+		}
+	case *ssa.Call:
+		f := x.Call.StaticCallee()
+		if f != nil && c.isRepoFn(f) && f.Blocks != nil && f.Signature.Results().Len() == 1 {
+			found := false
+			eachInstr(f, func(in ssa.Instruction) {
+				if r, isR := in.(*ssa.Return); isR && len(r.Results) == 1 && rec(r.Results[0]) {
+					found = true
+				}
+			})
+			return found
+		}
+		for _, a := range x.Call.Args {
+			if rec(a) {
+				return true
+			}
+			for _, e := range variadicElems(a) {
+				if rec(e) {
+					return true
+				}
+			}
+		}
+	case *ssa.MakeInterface:
+		return rec(x.X)
+	case *ssa.ChangeType:
+		return rec(x.X)
+	case *ssa.Convert:
+		return rec(x.X)
+	case *ssa.BinOp:
+		return rec(x.X) || rec(x.Y)
+	case *ssa.UnOp:
+		if x.Op == token.MUL {
+			// a local: what was stored into it
+			if al, isA := x.X.(*ssa.Alloc); isA {
+				for _, r := range *al.Referrers() {
+					if st, isS := r.(*ssa.Store); isS && st.Addr == ssa.Value(al) && rec(st.Val) {
+						return true
+					}
+				}
+			}
+		}
+	case *ssa.Phi:
+		for _, e := range x.Edges {
+			if rec(e) {
+				return true
+			}
+		}
+	}
+	return false
 }
 
 func localName(v ssa.Value) string {
